@@ -139,6 +139,10 @@ where
 
     let attempt = tx3_tir::reduce::apply_fees(attempt, fees)?;
 
+    // applied arguments must be folded into plain values before the compiler
+    // ops look at their operands
+    let attempt = tx3_tir::reduce::reduce(attempt)?;
+
     let attempt = attempt.apply(compiler)?;
 
     let attempt = tx3_tir::reduce::reduce(attempt)?;
